@@ -827,6 +827,7 @@ type ksPkt struct {
 	Dscp     uint8
 	IHL      uint8   // IPv4 header length in words (default 5; >5 pads NOP options)
 	FragOff  uint16  // fragment offset in 8-byte units (IPv4 field / IPv6 fragment header)
+	MoreFrag bool    // IPv4 MF flag / M bit of the IPv6 fragment header (needs 44 in ExtHdrs)
 	ExtHdrs  []uint8 // IPv6 extension chain: 0 hop-by-hop, 43 routing, 60 dst opts, 44 fragment
 	Payload  []byte
 }
@@ -876,7 +877,11 @@ func (p ksPkt) Bytes() []byte {
 		h[0] = 0x40 | ihl
 		h[1] = p.Dscp << 2
 		binary.BigEndian.PutUint16(h[2:], uint16(len(h)+len(l4)))
-		binary.BigEndian.PutUint16(h[6:], p.FragOff&0x1fff)
+		fo := p.FragOff & 0x1fff
+		if p.MoreFrag {
+			fo |= 0x2000
+		}
+		binary.BigEndian.PutUint16(h[6:], fo)
 		h[8] = 64
 		h[9] = p.Proto
 		copy(h[12:16], p.SrcIP[12:])
@@ -895,7 +900,11 @@ func (p ksPkt) Bytes() []byte {
 		if p.ExtHdrs[i] == 44 {
 			e = make([]byte, 8)
 			e[0] = next
-			binary.BigEndian.PutUint16(e[2:], (p.FragOff&0x1fff)<<3)
+			fo := (p.FragOff & 0x1fff) << 3
+			if p.MoreFrag {
+				fo |= 1
+			}
+			binary.BigEndian.PutUint16(e[2:], fo)
 		} else {
 			e = make([]byte, 8)
 			e[0] = next
